@@ -158,6 +158,9 @@ def handle (line : String) : String :=
   match o.cmd with
   | "w" => handleW o
   | "tables" => handleTables
+  | "algos" =>
+    -- SupportedAlgorithms() ∪ InsecureAlgorithms(): exactly the names that have an entry in cipherModes / macModes
+    "ciphers=3des-cbc,aes128-cbc,aes128-ctr,aes128-gcm@openssh.com,aes192-ctr,aes256-ctr,aes256-gcm@openssh.com,arcfour,arcfour128,arcfour256,chacha20-poly1305@openssh.com;macs=hmac-sha1,hmac-sha1-96,hmac-sha2-256,hmac-sha2-256-etm@openssh.com,hmac-sha2-512,hmac-sha2-512-etm@openssh.com"
   | "npc" => handleNpc o
   | "km" => handleKm o
   | "prim" => handlePrim o
